@@ -104,6 +104,20 @@ def translate_expression(expr, env: Env) -> TExp:  # noqa: C901
                 inner_type,
                 [Symbol(f"{sn}.{i}") for i in range(inner_type.BIT_SIZE)],
             )
+        elif len(get_args(inner_type)) > 0:
+            # an element that is itself a tuple: all of its bits
+            def bit_names(ttype, base):
+                if len(get_args(ttype)) > 0:
+                    return [
+                        n
+                        for ind, t in enumerate(get_args(ttype))
+                        for n in bit_names(t, f"{base}.{ind}")
+                    ]
+                elif hasattr(ttype, "BIT_SIZE"):
+                    return [f"{base}.{i}" for i in range(ttype.BIT_SIZE)]
+                return [base]
+
+            return (inner_type, [Symbol(n) for n in bit_names(inner_type, sn)])
         else:
             return (inner_type, Symbol(sn))
 
